@@ -199,3 +199,80 @@ func (e *Engine) writersObligations(prop string) []*Obligation {
 	_ = prop
 	return out
 }
+
+// Call restriction at function granularity:
+//
+//   //@ callers[Cxx] <function> <func>,<func>,...
+//
+// every direct call of that function lies inside one of the listed functions (closures count with
+// their enclosing function).  One obligation per clause (`<function>/frame:callers#<i>`).
+type CallersClause struct {
+	Tags   []string
+	Callee string
+	Funcs  []string
+}
+
+func (e *Engine) callersObligations(prop string) []*Obligation {
+	var out []*Obligation
+	sc := newScript()
+	for i, cc := range e.callers {
+		name := cc.Callee + "/frame:callers#" + strconv.Itoa(i)
+		target := e.funcByName[cc.Callee]
+		if target == nil {
+			ob := &Obligation{Name: name, Kind: "frame", Func: cc.Callee, Goal: "false", Desc: "callers clause names an unknown function " + cc.Callee, Claimed: true, Tags: cc.Tags}
+			sc.oblige(ob)
+			out = append(out, ob)
+			continue
+		}
+		allowed := map[string]bool{}
+		for _, f := range cc.Funcs {
+			allowed[f] = true
+		}
+		bad := map[string]bool{}
+		for _, fn := range e.allFuncs {
+			if fn.Blocks == nil || !e.inModule(fn) {
+				continue
+			}
+			top := fn
+			for top.Parent() != nil {
+				top = top.Parent()
+			}
+			if allowed[top.String()] {
+				continue
+			}
+			for _, b := range fn.Blocks {
+				for _, ins := range b.Instrs {
+					if ci, ok := ins.(ssa.CallInstruction); ok {
+						if callee, isFn := ci.Common().Value.(*ssa.Function); isFn && callee == target {
+							bad[top.String()] = true
+						}
+					}
+					// a method value / function value taken: could be called from anywhere
+					for _, op := range ins.Operands(nil) {
+						if *op == ssa.Value(target) {
+							if ci, ok := ins.(ssa.CallInstruction); !ok || ci.Common().Value != ssa.Value(target) {
+								bad[top.String()+" (function value taken)"] = true
+							}
+						}
+					}
+				}
+			}
+		}
+		goal := "true"
+		desc := cc.Callee + " is called only from " + strings.Join(cc.Funcs, ", ")
+		if len(bad) > 0 {
+			var bl []string
+			for b := range bad {
+				bl = append(bl, b)
+			}
+			sort.Strings(bl)
+			goal = "false"
+			desc += "; but also from " + strings.Join(bl, ", ")
+		}
+		ob := &Obligation{Name: name, Kind: "frame", Func: cc.Callee, Goal: goal, Desc: desc, Claimed: true, Tags: cc.Tags}
+		sc.oblige(ob)
+		out = append(out, ob)
+	}
+	_ = prop
+	return out
+}
